@@ -1,1 +1,601 @@
-/- C20 — theorems (placeholder until the property is built). -/
+/-
+  C20 — Reported margins are a pure, monotone function of the checked pipeline.
+
+  Theorems about `Model/Margins.lean`; the per-class margin formulas and the registration table of
+  the check callbacks are regenerated from the source on every run (`Generated/Margins.lean`) and
+  proved equal to the documented ones.
+-/
+import PandoraModel.Model.Margins
+import PandoraModel.Generated.Margins
+import Mathlib.Tactic.Linarith
+import Mathlib.Algebra.Order.Field.Rat
+
+namespace Pandora.C20
+open Pandora.Margins Pandora.Machine
+
+/-! ### 1. The source's per-class margins are the documented ones (for every parameter value) -/
+
+/-- half the matching window for every built-in matching cost class -/
+theorem matchingCost_margins_documented (c : StepCfg) (rows cols step : Int) (m : String)
+    (hm : m ∈ ["sad", "ssd", "zncc", "census"]) :
+    Generated.Margins.marginOf "matching_cost" m c rows cols step
+      = some (documentedMargin .matchingCost c rows cols step) := by
+  simp only [List.mem_cons, List.mem_nil_iff, or_false] at hm
+  rcases hm with h | h | h | h <;> subst h <;>
+    simp [Generated.Margins.marginOf, documentedMargin, M4.uniform, halfWindow]
+
+/-- median filters: `filter_size * step`; bilateral: `min(rows, cols, int(3 sigma_space + 1)) * step` -/
+theorem filter_margins_documented (c : StepCfg) (rows cols step : Int)
+    (hm : c.method ∈ ["median", "bilateral", "median_for_intervals"]) :
+    Generated.Margins.marginOf "filter" c.method c rows cols step
+      = some (documentedMargin .filter c rows cols step) := by
+  simp only [List.mem_cons, List.mem_nil_iff, or_false] at hm
+  rcases hm with h | h | h <;> rw [h] <;>
+    simp [Generated.Margins.marginOf, documentedMargin, M4.uniform, h]
+
+/-- 0 for aggregation, disparity, refinement -/
+theorem null_margins_documented (c : StepCfg) (rows cols step : Int) :
+    Generated.Margins.marginOf "aggregation" "cbca" c rows cols step = some (documentedMargin .aggregation c rows cols step)
+    ∧ Generated.Margins.marginOf "disparity" "wta" c rows cols step = some (documentedMargin .disparity c rows cols step)
+    ∧ Generated.Margins.marginOf "refinement" "vfit" c rows cols step = some (documentedMargin .refinement c rows cols step)
+    ∧ Generated.Margins.marginOf "refinement" "quadratic" c rows cols step = some (documentedMargin .refinement c rows cols step) := by
+  simp [Generated.Margins.marginOf, documentedMargin, M4.zero]
+
+/-- 40 for optimisation: the abstract base class every optimisation plugin inherits from -/
+theorem optimization_margins_documented (c : StepCfg) (rows cols step : Int) :
+    Generated.Margins.baseMarginOf "optimization" c rows cols step
+      = some (documentedMargin .optimization c rows cols step) := by
+  simp [Generated.Margins.baseMarginOf, documentedMargin, M4.uniform]
+
+/-- every registered built-in class of a margin-bearing kind is covered by the theorems above -/
+theorem registered_classes_covered :
+    (Generated.Margins.registered.filter fun r =>
+        r.1 == "matching_cost" || r.1 == "filter" || r.1 == "aggregation" || r.1 == "disparity"
+        || r.1 == "refinement" || r.1 == "optimization").map (fun r => (r.1, r.2.1))
+      = [("aggregation", "cbca"), ("disparity", "wta"), ("filter", "bilateral"), ("filter", "median"),
+         ("filter", "median_for_intervals"), ("matching_cost", "census"), ("matching_cost", "sad"),
+         ("matching_cost", "ssd"), ("matching_cost", "zncc"), ("refinement", "quadratic"),
+         ("refinement", "vfit")] := by decide
+
+def regName : Reg → String
+  | .cumulative => "cumulative"
+  | .nonCumulative => "non_cumulative"
+  | .none => "none"
+
+/-- each `<kind>_check_conf` registers its step's margins the documented way -/
+theorem registration_documented :
+    Kind.all.all (fun k =>
+      (Generated.Margins.registration.find? (fun r => r.1 == k.name ++ "_check_conf")).map (·.2)
+        == some (regName (documentedReg k))) = true := by decide
+
+
+/-! ### 2. The global margins are, per side, the larger of the cumulative sum and each non-cumulative -/
+
+theorem foldl_max_proj (l : List M4) (a : M4) :
+    (l.foldl M4.max a).left = l.foldl (fun acc m => max acc m.left) a.left
+    ∧ (l.foldl M4.max a).up = l.foldl (fun acc m => max acc m.up) a.up
+    ∧ (l.foldl M4.max a).right = l.foldl (fun acc m => max acc m.right) a.right
+    ∧ (l.foldl M4.max a).down = l.foldl (fun acc m => max acc m.down) a.down := by
+  induction l generalizing a with
+  | nil => simp
+  | cons x xs ih => simpa [List.foldl_cons, M4.max] using ih (a.max x)
+
+theorem maxMargins_cons (a : M4) (l : List M4) : maxMargins (a :: l) = l.foldl M4.max a := by
+  cases l <;> simp [maxMargins]
+
+theorem global_formula (g : Global) :
+    g.globalMargins = expectedGlobal g.cumulatives g.nonCumulatives := by
+  unfold Global.globalMargins expectedGlobal
+  rw [maxMargins_cons]
+  obtain ⟨h1, h2, h3, h4⟩ := foldl_max_proj (g.nonCumulatives.map (·.2)) g.cumulatives.sum
+  have e : ∀ (f : M4 → Int) (z : Int), (g.nonCumulatives.map (·.2)).foldl (fun acc m => max acc (f m)) z
+      = g.nonCumulatives.foldl (fun a e => max a (f e.2)) z := by
+    intro f z; rw [List.foldl_map]
+  cases hx : List.foldl M4.max (MDict.sum g.cumulatives) (List.map (fun x => x.2) g.nonCumulatives)
+  simp only [hx] at h1 h2 h3 h4
+  simp only [h1, h2, h3, h4, e]
+
+/-! ### 3. Non-negativity -/
+
+theorem foldl_max_ge (l : List (String × M4)) (f : M4 → Int) (z : Int) :
+    z ≤ l.foldl (fun a e => max a (f e.2)) z := by
+  induction l generalizing z with
+  | nil => simp
+  | cons x xs ih => exact Int.le_trans (Int.le_max_left _ _) (ih _)
+
+theorem sum_nonneg_aux (l : MDict) (acc : M4) (ha : acc.nonneg) (h : ∀ e ∈ l, e.2.nonneg) :
+    (l.foldl (fun acc e => acc.add e.2) acc).nonneg := by
+  induction l generalizing acc with
+  | nil => simpa
+  | cons x xs ih =>
+    apply ih
+    · have hx := h x (by simp)
+      show (acc.add x.2).nonneg
+      unfold M4.nonneg M4.add at *
+      simp only []
+      omega
+    · intro e he; exact h e (by simp [he])
+
+theorem sum_nonneg (l : MDict) (h : ∀ e ∈ l, e.2.nonneg) : l.sum.nonneg :=
+  sum_nonneg_aux l M4.zero (by simp [M4.nonneg, M4.zero]) h
+
+/-- the global margins are non-negative as soon as the cumulative ones are -/
+theorem global_nonneg (g : Global) (h : ∀ e ∈ g.cumulatives, e.2.nonneg) : g.globalMargins.nonneg := by
+  rw [global_formula]
+  have hs := sum_nonneg g.cumulatives h
+  unfold expectedGlobal M4.nonneg at *
+  refine ⟨?_, ?_, ?_, ?_⟩
+  · exact Int.le_trans hs.1 (foldl_max_ge _ (·.left) _)
+  · exact Int.le_trans hs.2.1 (foldl_max_ge _ (·.up) _)
+  · exact Int.le_trans hs.2.2.1 (foldl_max_ge _ (·.right) _)
+  · exact Int.le_trans hs.2.2.2 (foldl_max_ge _ (·.down) _)
+
+theorem valid_nonneg (m : M4) (h : m.valid = true) : m.nonneg := by
+  simpa [M4.valid, M4.nonneg, and_assoc] using h
+
+theorem uniform_nonneg (v : Int) (h : 0 ≤ v) : (M4.uniform v).nonneg := by
+  simp [M4.uniform, M4.nonneg, h]
+
+theorem ratTrunc_nonneg (q : Rat) (hq : 0 ≤ q) : 0 ≤ ratTrunc q := by
+  simp only [ratTrunc, hq, if_true]
+  exact Rat.le_floor_iff.mpr (by simpa using hq)
+
+/-- documented margins are non-negative for every parameter value the schemas admit -/
+theorem documentedMargin_nonneg (k : Kind) (c : StepCfg) (rows cols step : Int)
+    (hw : 1 ≤ c.windowSize) (hf : 0 ≤ c.filterSize) (hs : 0 ≤ step) (hr : 0 ≤ rows) (hc : 0 ≤ cols)
+    (hsig : 0 ≤ c.sigmaSpace) : (documentedMargin k c rows cols step).nonneg := by
+  cases k <;> simp only [documentedMargin] <;>
+    first
+    | exact uniform_nonneg _ (by decide)
+    | (simp [M4.nonneg]; done)
+    | skip
+  · -- matching cost: half window
+    apply uniform_nonneg
+    unfold halfWindow
+    apply ratTrunc_nonneg
+    have : (0 : Rat) ≤ ((c.windowSize - 1 : Int) : Rat) := by exact_mod_cast (by omega : (0 : Int) ≤ c.windowSize - 1)
+    exact div_nonneg this (by norm_num)
+  · -- filter
+    split
+    · apply uniform_nonneg
+      have h3 : 0 ≤ ratTrunc (3 * c.sigmaSpace + 1) := by
+        apply ratTrunc_nonneg
+        linarith
+      have hm : 0 ≤ min (min rows cols) (ratTrunc (3 * c.sigmaSpace + 1)) := by omega
+      exact Int.mul_nonneg hm hs
+    · apply uniform_nonneg
+      exact Int.mul_nonneg hf hs
+
+
+/-! ### 4. What `check_conf` registers: exactly the margin-bearing steps, in order, documented values -/
+
+/-- the registrations of one round, in order (the round fails at a name that is not a step kind) -/
+def entries (rows cols : Int) : List StepCfg → Int → List Entry
+  | [], _ => []
+  | c :: cs, step =>
+    match entryOf rows cols step c with
+    | none => []
+    | some (e, step') => e :: entries rows cols cs step'
+
+def stepEnd : List StepCfg → Int → Int
+  | [], step => step
+  | c :: cs, step =>
+    match Kind.ofName? (kindOf c.name) with
+    | none => step
+    | some k => stepEnd cs (stepAfter step c k)
+
+def applyEntries : List Entry → Global → Option Global
+  | [], g => some g
+  | e :: es, g =>
+    match applyEntry g e with
+    | none => none
+    | some g' => applyEntries es g'
+
+def KnownKinds (p : List StepCfg) : Prop := ∀ c ∈ p, (Kind.ofName? (kindOf c.name)).isSome = true
+
+theorem round_eq_applyEntries (rows cols : Int) :
+    ∀ (p : List StepCfg) (s : MgState), KnownKinds p →
+      checkRoundMargins rows cols p s =
+        (applyEntries (entries rows cols p s.step) s.g).map (fun g => { g := g, step := stepEnd p s.step }) := by
+  intro p
+  induction p with
+  | nil => intro s _; simp [checkRoundMargins, entries, applyEntries, stepEnd]
+  | cons c cs ih =>
+    intro s hk
+    have hc := hk c (by simp)
+    have hcs : KnownKinds cs := fun x hx => hk x (by simp [hx])
+    cases hkind : Kind.ofName? (kindOf c.name) with
+    | none => simp [hkind] at hc
+    | some k =>
+      simp only [checkRoundMargins, checkStepMargins, entries, entryOf, hkind, applyEntries, stepEnd]
+      cases happ : applyEntry s.g _ with
+      | none => simp
+      | some g' =>
+        simp only []
+        rw [ih _ hcs]
+
+def cumOf (es : List Entry) : MDict := (es.filter (fun e => e.reg == Reg.cumulative)).map (fun e => (e.name, e.m))
+def nonOf (es : List Entry) : MDict := (es.filter (fun e => e.reg == Reg.nonCumulative)).map (fun e => (e.name, e.m))
+
+theorem entries_cum (rows cols : Int) : ∀ (p : List StepCfg) (step : Int), KnownKinds p →
+    cumOf (entries rows cols p step) = expectedEntries .cumulative rows cols p step
+    ∧ nonOf (entries rows cols p step) = expectedEntries .nonCumulative rows cols p step := by
+  intro p
+  induction p with
+  | nil => intro _ _; simp [entries, cumOf, nonOf, expectedEntries]
+  | cons c cs ih =>
+    intro step hk
+    have hc := hk c (by simp)
+    have hcs : KnownKinds cs := fun x hx => hk x (by simp [hx])
+    cases hkind : Kind.ofName? (kindOf c.name) with
+    | none => simp [hkind] at hc
+    | some k =>
+      obtain ⟨h1, h2⟩ := ih (stepAfter step c k) hcs
+      simp only [entries, entryOf, hkind, expectedEntries]
+      constructor
+      · simp only [cumOf] at h1 ⊢
+        cases hr : documentedReg k <;> simp [h1]
+      · simp only [nonOf] at h2 ⊢
+        cases hr : documentedReg k <;> simp [h2]
+
+theorem set_fresh (d : MDict) (k : String) (v : M4) (h : d.has k = false) : d.set k v = d ++ [(k, v)] := by
+  unfold MDict.set
+  have h' : d.any (fun e => e.1 == k) = false := h
+  simp [h']
+
+/-- on a fresh GlobalMargins, distinct step names: the two dictionaries list exactly the
+    registrations, in order -/
+theorem applyEntries_fresh : ∀ (es : List Entry) (g : Global),
+    (es.map (·.name)).Nodup →
+    (∀ e ∈ es, e.m.valid = true) →
+    (∀ e ∈ es, g.cumulatives.has e.name = false ∧ g.nonCumulatives.has e.name = false) →
+    applyEntries es g =
+      some { cumulatives := g.cumulatives ++ cumOf es, nonCumulatives := g.nonCumulatives ++ nonOf es } := by
+  intro es
+  induction es with
+  | nil => intro g _ _ _; simp [applyEntries, cumOf, nonOf]
+  | cons e es ih =>
+    intro g hnd hv hfresh
+    have hnd2 : (∀ x ∈ es, ¬x.name = e.name) ∧ (es.map (·.name)).Nodup := by simpa using hnd
+    have hnd' : (es.map (·.name)).Nodup := hnd2.2
+    have hnotin : ∀ x ∈ es, x.name ≠ e.name := hnd2.1
+    have hve := hv e (by simp)
+    obtain ⟨hfc, hfn⟩ := hfresh e (by simp)
+    have hv' : ∀ x ∈ es, x.m.valid = true := fun x hx => hv x (by simp [hx])
+    have hkeys : ∀ (d : MDict) (x : Entry), x ∈ es → d.has x.name = false →
+        MDict.has (d ++ [(e.name, e.m)]) x.name = false := by
+      intro d x hx hd
+      simp [MDict.has] at hd ⊢
+      exact ⟨hd, fun h => hnotin x hx h.symm⟩
+    cases hr : e.reg with
+    | none =>
+      simp only [applyEntries, applyEntry, hr]
+      rw [ih g hnd' hv' (fun x hx => hfresh x (by simp [hx]))]
+      simp [cumOf, nonOf, hr]
+    | cumulative =>
+      simp only [applyEntries, applyEntry, hr, hve, Global.addCumulative, hfn, set_fresh _ _ _ hfc]
+      simp only [Bool.not_true, Bool.false_eq_true, if_false]
+      have := ih { cumulatives := g.cumulatives ++ [(e.name, e.m)], nonCumulatives := g.nonCumulatives }
+        hnd' hv' (fun x hx => ⟨hkeys _ x hx (hfresh x (by simp [hx])).1, (hfresh x (by simp [hx])).2⟩)
+      rw [this]
+      simp [cumOf, nonOf, hr]
+    | nonCumulative =>
+      simp only [applyEntries, applyEntry, hr, hve, Global.addNonCumulative, hfc, set_fresh _ _ _ hfn]
+      simp only [Bool.not_true, Bool.false_eq_true, if_false]
+      have := ih { cumulatives := g.cumulatives, nonCumulatives := g.nonCumulatives ++ [(e.name, e.m)] }
+        hnd' hv' (fun x hx => ⟨(hfresh x (by simp [hx])).1, hkeys _ x hx (hfresh x (by simp [hx])).2⟩)
+      rw [this]
+      simp [cumOf, nonOf, hr]
+
+
+theorem entries_names (rows cols : Int) : ∀ (q : List StepCfg) (st : Int), KnownKinds q →
+    (entries rows cols q st).map (·.name) = q.map (·.name) := by
+  intro q
+  induction q with
+  | nil => intro _ _; simp [entries]
+  | cons c cs ih =>
+    intro st hq
+    have hc := hq c (by simp)
+    cases hkind : Kind.ofName? (kindOf c.name) with
+    | none => simp [hkind] at hc
+    | some k =>
+      simp [entries, entryOf, hkind, ih _ (fun x hx => hq x (by simp [hx]))]
+
+/-- **The reported margins list exactly the margin-bearing steps with the documented values.**
+    On a fresh machine, for a pipeline whose step names are distinct and are step kinds, and whose
+    parameters are in their domains (margins non-negative): after one checking round the cumulative
+    and non-cumulative dictionaries are the expected lists, in pipeline order. -/
+theorem margins_listed (rows cols : Int) (p : List StepCfg) (hk : KnownKinds p)
+    (hnd : (p.map (·.name)).Nodup)
+    (hv : ∀ e ∈ entries rows cols p 1, e.m.valid = true) :
+    checkRoundMargins rows cols p {} =
+      some { g := { cumulatives := expectedEntries .cumulative rows cols p 1,
+                    nonCumulatives := expectedEntries .nonCumulative rows cols p 1 },
+             step := stepEnd p 1 } := by
+  have hnames := entries_names rows cols
+  rw [round_eq_applyEntries rows cols p {} hk]
+  have hfresh := applyEntries_fresh (entries rows cols p 1) {} (by rw [hnames p 1 hk]; exact hnd) hv
+    (by intro e _; simp [MDict.has])
+  obtain ⟨h1, h2⟩ := entries_cum rows cols p 1 hk
+  simp only [hfresh]
+  simp [h1, h2]
+
+/-! ### 5. The second (right/left) round changes nothing -/
+
+/-- the registration `e` is already in `g`, with the same value -/
+def Present (g : Global) (e : Entry) : Prop :=
+  e.m.valid = true ∧
+  match e.reg with
+  | .none => True
+  | .cumulative => g.nonCumulatives.has e.name = false ∧ g.cumulatives.has e.name = true
+      ∧ ∀ x ∈ g.cumulatives, x.1 = e.name → x.2 = e.m
+  | .nonCumulative => g.cumulatives.has e.name = false ∧ g.nonCumulatives.has e.name = true
+      ∧ ∀ x ∈ g.nonCumulatives, x.1 = e.name → x.2 = e.m
+
+theorem set_same (d : MDict) (k : String) (v : M4) (hh : d.has k = true)
+    (hv : ∀ x ∈ d, x.1 = k → x.2 = v) : d.set k v = d := by
+  unfold MDict.set
+  have h' : d.any (fun e => e.1 == k) = true := hh
+  simp only [h', if_true]
+  conv => rhs; rw [← List.map_id d]
+  apply List.map_congr_left
+  intro x hx
+  by_cases hxk : x.1 = k
+  · have := hv x hx hxk
+    simp [hxk]
+    rw [← hxk, ← this]
+  · simp [hxk]
+
+theorem applyEntries_noop : ∀ (es : List Entry) (g : Global), (∀ e ∈ es, Present g e) →
+    applyEntries es g = some g := by
+  intro es
+  induction es with
+  | nil => intro g _; rfl
+  | cons e es ih =>
+    intro g h
+    have he := h e (by simp)
+    have hstep : applyEntry g e = some g := by
+      obtain ⟨hv, hp⟩ := he
+      unfold applyEntry
+      cases hr : e.reg with
+      | none => rfl
+      | cumulative =>
+        simp only [hr] at hp
+        obtain ⟨h1, h2, h3⟩ := hp
+        simp [hv, Global.addCumulative, h1, set_same _ _ _ h2 h3]
+      | nonCumulative =>
+        simp only [hr] at hp
+        obtain ⟨h1, h2, h3⟩ := hp
+        simp [hv, Global.addNonCumulative, h1, set_same _ _ _ h2 h3]
+    simp only [applyEntries, hstep]
+    exact ih g (fun x hx => h x (by simp [hx]))
+
+theorem eq_of_nodup_names : ∀ (es : List Entry), (es.map (·.name)).Nodup →
+    ∀ x ∈ es, ∀ y ∈ es, x.name = y.name → x = y := by
+  intro es
+  induction es with
+  | nil => intro _ x hx; simp at hx
+  | cons a as ih =>
+    intro hnd x hx y hy hxy
+    have h2 : (∀ z ∈ as, ¬z.name = a.name) ∧ (as.map (·.name)).Nodup := by simpa using hnd
+    simp only [List.mem_cons] at hx hy
+    rcases hx with rfl | hx <;> rcases hy with rfl | hy
+    · rfl
+    · exact absurd hxy.symm (h2.1 y hy)
+    · exact absurd hxy (h2.1 x hx)
+    · exact ih h2.2 x hx y hy hxy
+
+/-- in a dictionary with distinct keys built from `es`, every entry of `es` is present -/
+theorem present_of_fresh (es : List Entry) (hnd : (es.map (·.name)).Nodup)
+    (hv : ∀ e ∈ es, e.m.valid = true) :
+    ∀ e ∈ es, Present { cumulatives := cumOf es, nonCumulatives := nonOf es } e := by
+  intro e he
+  refine ⟨hv e he, ?_⟩
+  have huniq : ∀ x ∈ es, x.name = e.name → x = e := by
+    intro x hx hname
+    exact eq_of_nodup_names es hnd x hx e he hname
+  cases hr : e.reg with
+  | none => trivial
+  | cumulative =>
+    refine ⟨?_, ?_, ?_⟩
+    · simp only [MDict.has, nonOf, List.any_eq_false]
+      intro x hx
+      simp only [List.mem_map, List.mem_filter] at hx
+      obtain ⟨y, ⟨hy, hyr⟩, rfl⟩ := hx
+      intro hn
+      have := huniq y hy (by simpa using hn)
+      subst this
+      simp [hr] at hyr
+    · simp only [MDict.has, cumOf, List.any_eq_true]
+      exact ⟨(e.name, e.m), by simp only [List.mem_map, List.mem_filter]; exact ⟨e, ⟨he, by simp [hr]⟩, rfl⟩, by simp⟩
+    · intro x hx hn
+      simp only [cumOf, List.mem_map, List.mem_filter] at hx
+      obtain ⟨y, ⟨hy, _⟩, rfl⟩ := hx
+      have := huniq y hy hn
+      subst this; rfl
+  | nonCumulative =>
+    refine ⟨?_, ?_, ?_⟩
+    · simp only [MDict.has, cumOf, List.any_eq_false]
+      intro x hx
+      simp only [List.mem_map, List.mem_filter] at hx
+      obtain ⟨y, ⟨hy, hyr⟩, rfl⟩ := hx
+      intro hn
+      have := huniq y hy (by simpa using hn)
+      subst this
+      simp [hr] at hyr
+    · simp only [MDict.has, nonOf, List.any_eq_true]
+      exact ⟨(e.name, e.m), by simp only [List.mem_map, List.mem_filter]; exact ⟨e, ⟨he, by simp [hr]⟩, rfl⟩, by simp⟩
+    · intro x hx hn
+      simp only [nonOf, List.mem_map, List.mem_filter] at hx
+      obtain ⟨y, ⟨hy, _⟩, rfl⟩ := hx
+      have := huniq y hy hn
+      subst this; rfl
+
+
+/-- a pipeline that starts with its matching cost step (every accepted non-empty pipeline does) -/
+def StartsWithMatchingCost : List StepCfg → Prop
+  | [] => True
+  | c :: _ => Kind.ofName? (kindOf c.name) = some Kind.matchingCost
+
+theorem entries_step_indep (rows cols : Int) (p : List StepCfg) (h : StartsWithMatchingCost p)
+    (hne : p ≠ []) (s s' : Int) :
+    entries rows cols p s = entries rows cols p s' ∧ stepEnd p s = stepEnd p s' := by
+  cases p with
+  | nil => exact absurd rfl hne
+  | cons c cs =>
+    simp only [StartsWithMatchingCost] at h
+    simp [entries, entryOf, stepEnd, h, stepAfter]
+
+/-- **The second (right/left) checking round a validation step triggers changes nothing**
+    (images of equal shape): same keys, same order, same values, same global margins. -/
+theorem second_round_noop (rows cols : Int) (p : List StepCfg) (hk : KnownKinds p)
+    (hnd : (p.map (·.name)).Nodup) (hmc : StartsWithMatchingCost p)
+    (hv : ∀ e ∈ entries rows cols p 1, e.m.valid = true) :
+    checkMargins rows cols rows cols p {} = checkRoundMargins rows cols p {} := by
+  unfold checkMargins
+  rw [margins_listed rows cols p hk hnd hv]
+  simp only []
+  by_cases hval : hasKind .validation (p.map (·.name)) = true
+  · simp only [hval, if_true]
+    by_cases hne : p = []
+    · subst hne; simp [checkRoundMargins, expectedEntries, stepEnd]
+    · rw [round_eq_applyEntries rows cols p _ hk]
+      obtain ⟨he, hs⟩ := entries_step_indep rows cols p hmc hne (stepEnd p 1) 1
+      simp only [he, hs]
+      obtain ⟨h1, h2⟩ := entries_cum rows cols p 1 hk
+      have hnames := entries_names rows cols p 1 hk
+      have hpres := present_of_fresh (entries rows cols p 1) (by rw [hnames]; exact hnd) hv
+      rw [h1, h2] at hpres
+      rw [applyEntries_noop _ _ hpres]
+      rfl
+  · simp [hval]
+
+/-! ### 6. Monotonicity: adding a step never decreases the global margins -/
+
+theorem foldl_max_mono (l : List (String × M4)) (f : M4 → Int) (a b : Int) (h : a ≤ b) :
+    l.foldl (fun acc e => max acc (f e.2)) a ≤ l.foldl (fun acc e => max acc (f e.2)) b := by
+  induction l generalizing a b with
+  | nil => simpa
+  | cons x xs ih => exact ih _ _ (by show max a (f x.2) ≤ max b (f x.2); omega)
+
+theorem foldl_max_insert (l1 l2 : List (String × M4)) (x : String × M4) (f : M4 → Int) (z : Int) :
+    (l1 ++ l2).foldl (fun acc e => max acc (f e.2)) z
+      ≤ (l1 ++ x :: l2).foldl (fun acc e => max acc (f e.2)) z := by
+  simp only [List.foldl_append, List.foldl_cons]
+  exact foldl_max_mono l2 f _ _ (Int.le_max_left _ _)
+
+theorem sum_proj_aux (l : MDict) (acc : M4) :
+    (l.foldl (fun acc e => acc.add e.2) acc).left = acc.left + (l.map (·.2.left)).sum
+    ∧ (l.foldl (fun acc e => acc.add e.2) acc).up = acc.up + (l.map (·.2.up)).sum
+    ∧ (l.foldl (fun acc e => acc.add e.2) acc).right = acc.right + (l.map (·.2.right)).sum
+    ∧ (l.foldl (fun acc e => acc.add e.2) acc).down = acc.down + (l.map (·.2.down)).sum := by
+  induction l generalizing acc with
+  | nil => simp
+  | cons x xs ih =>
+    obtain ⟨h1, h2, h3, h4⟩ := ih (acc.add x.2)
+    simp only [List.foldl_cons, List.map_cons, List.sum_cons]
+    rw [h1, h2, h3, h4]
+    simp only [M4.add]
+    omega
+
+theorem sum_insert_le (l1 l2 : MDict) (x : String × M4) (hx : x.2.nonneg) :
+    M4.le (MDict.sum (l1 ++ l2)) (MDict.sum (l1 ++ x :: l2)) := by
+  unfold MDict.sum M4.le
+  obtain ⟨a1, a2, a3, a4⟩ := sum_proj_aux (l1 ++ l2) M4.zero
+  obtain ⟨b1, b2, b3, b4⟩ := sum_proj_aux (l1 ++ x :: l2) M4.zero
+  simp only [a1, a2, a3, a4, b1, b2, b3, b4, List.map_append, List.map_cons, List.sum_append, List.sum_cons]
+  unfold M4.nonneg at hx
+  omega
+
+/-- adding a cumulative margin (any position) never decreases the global margins -/
+theorem global_mono_cumulative (c1 c2 non : MDict) (x : String × M4) (hx : x.2.nonneg) :
+    M4.le (expectedGlobal (c1 ++ c2) non) (expectedGlobal (c1 ++ x :: c2) non) := by
+  obtain ⟨h1, h2, h3, h4⟩ := sum_insert_le c1 c2 x hx
+  unfold expectedGlobal M4.le
+  exact ⟨foldl_max_mono non (·.left) _ _ h1, foldl_max_mono non (·.up) _ _ h2,
+         foldl_max_mono non (·.right) _ _ h3, foldl_max_mono non (·.down) _ _ h4⟩
+
+/-- adding a non-cumulative margin (any position) never decreases the global margins -/
+theorem global_mono_nonCumulative (cum n1 n2 : MDict) (x : String × M4) :
+    M4.le (expectedGlobal cum (n1 ++ n2)) (expectedGlobal cum (n1 ++ x :: n2)) := by
+  unfold expectedGlobal M4.le
+  exact ⟨foldl_max_insert n1 n2 x (·.left) _, foldl_max_insert n1 n2 x (·.up) _,
+         foldl_max_insert n1 n2 x (·.right) _, foldl_max_insert n1 n2 x (·.down) _⟩
+
+/-- inserting a step that is not a matching cost step leaves the other steps' entries unchanged and
+    adds its own entry at its place -/
+theorem expectedEntries_insert (reg : Reg) (rows cols : Int) (c : StepCfg) (k : Kind)
+    (hk : Kind.ofName? (kindOf c.name) = some k) (hmc : k ≠ Kind.matchingCost) :
+    ∀ (p1 p2 : List StepCfg) (st : Int),
+      ∃ st', expectedEntries reg rows cols (p1 ++ c :: p2) st =
+        expectedEntries reg rows cols p1 st ++
+          ((if documentedReg k = reg then [(c.name, documentedMargin k c rows cols st')] else [])
+            ++ expectedEntries reg rows cols p2 st')
+      ∧ expectedEntries reg rows cols (p1 ++ p2) st =
+        expectedEntries reg rows cols p1 st ++ expectedEntries reg rows cols p2 st' := by
+  intro p1
+  induction p1 with
+  | nil =>
+    intro p2 st
+    refine ⟨st, ?_, ?_⟩
+    · simp only [List.nil_append, expectedEntries, hk, stepAfter, hmc, if_false]
+      split <;> simp
+    · simp [expectedEntries]
+  | cons a as ih =>
+    intro p2 st
+    cases ha : Kind.ofName? (kindOf a.name) with
+    | none =>
+      obtain ⟨st', h1, h2⟩ := ih p2 st
+      exact ⟨st', by simp [expectedEntries, ha, h1], by simp [expectedEntries, ha, h2]⟩
+    | some ka =>
+      obtain ⟨st', h1, h2⟩ := ih p2 (stepAfter st a ka)
+      refine ⟨st', ?_, ?_⟩
+      · simp only [List.cons_append, expectedEntries, ha, h1]
+        split <;> simp
+      · simp only [List.cons_append, expectedEntries, ha, h2]
+        split <;> simp
+
+/-- **The global margins never decrease when a step is added** (anywhere in the pipeline; the
+    added step is not a second matching cost step, which no accepted pipeline can contain). -/
+theorem global_monotone (rows cols : Int) (c : StepCfg) (k : Kind)
+    (hk : Kind.ofName? (kindOf c.name) = some k) (hmc : k ≠ Kind.matchingCost)
+    (hnn : ∀ st, (documentedMargin k c rows cols st).nonneg) (p1 p2 : List StepCfg) :
+    M4.le
+      (expectedGlobal (expectedEntries .cumulative rows cols (p1 ++ p2) 1)
+                      (expectedEntries .nonCumulative rows cols (p1 ++ p2) 1))
+      (expectedGlobal (expectedEntries .cumulative rows cols (p1 ++ c :: p2) 1)
+                      (expectedEntries .nonCumulative rows cols (p1 ++ c :: p2) 1)) := by
+  obtain ⟨s1, hc1, hc2⟩ := expectedEntries_insert .cumulative rows cols c k hk hmc p1 p2 1
+  obtain ⟨s2, hn1, hn2⟩ := expectedEntries_insert .nonCumulative rows cols c k hk hmc p1 p2 1
+  rw [hc1, hc2, hn1, hn2]
+  cases hr : documentedReg k with
+  | none => simp [M4.le]
+  | cumulative =>
+    simp only [if_true, reduceCtorEq, if_false, List.nil_append, List.singleton_append]
+    exact global_mono_cumulative _ _ _ _ (hnn s1)
+  | nonCumulative =>
+    simp only [if_true, reduceCtorEq, if_false, List.nil_append, List.singleton_append]
+    exact global_mono_nonCumulative _ _ _ _
+
+/-! ### 7. Non-vacuity -/
+
+def examplePipeline : List StepCfg :=
+  [{ name := "matching_cost", method := "zncc", windowSize := 5, stepParam := 2 },
+   { name := "disparity", method := "wta" },
+   { name := "filter", method := "median", filterSize := 3 },
+   { name := "validation", method := "cross_checking_accurate" },
+   { name := "filter.1", method := "bilateral", sigmaSpace := 2 }]
+
+example : KnownKinds examplePipeline := by
+  intro c hc
+  simp only [examplePipeline, List.mem_cons, List.mem_nil_iff, or_false] at hc
+  rcases hc with rfl | rfl | rfl | rfl | rfl <;> decide
+example : (examplePipeline.map (·.name)).Nodup := by decide
+example : StartsWithMatchingCost examplePipeline := by
+  show Kind.ofName? (kindOf "matching_cost") = some Kind.matchingCost
+  decide
+example : ((entries 20 30 examplePipeline 1).all fun e => e.m.valid) = true := by decide +kernel
+example : (checkMargins 20 30 20 30 examplePipeline {}).map (·.g.globalMargins) = some ⟨14, 14, 14, 14⟩ := by
+  decide +kernel
+
+end Pandora.C20
